@@ -11,6 +11,8 @@ import PyTough.Model.Listing
 import PyTough.Proofs.Listing
 import PyTough.Proofs.ListingRows
 import PyTough.Proofs.ListingValues
+import PyTough.Proofs.ListingRowFormat
+import PyTough.Proofs.ListingFile
 
 namespace Props.C05
 open Py Model Model.Listing Proofs.Listing Proofs.Rows Proofs.Values
@@ -88,6 +90,37 @@ example : let cells : List Cell := [⟨1, ['0'], "99013E+07".toList⟩, ⟨1, ['
     "  AA 1     1".toList ++ (renderAll cells ++ ['\n']) = "  AA 1     1 0.99013E+07 0.00000E+00-0.12409E+03\n".toList ∧
     SepChain cells ∧ starts 12 cells = [12, 24, 36] := by
   refine ⟨by decide, ⟨Or.inl ⟨by decide, by decide⟩, Or.inr ⟨rfl, "00000".toList, '+', '0', '0', by decide, by decide⟩, trivial⟩, by decide⟩
+
+/-- The side conditions of `column_boundaries_correct` are decidable on a concrete line; `rowFormatB` decides them and
+    this theorem says its answer can be trusted.  The driver evaluates it on the line every table's columns were
+    inferred from (all TOUGH2-family tables of the 37 shipped files but the ECO2M table with the integer column
+    satisfy it; the evidence file reports the count of every run). -/
+theorem row_format_decidable (line : Str) (bounds : List Nat) (h : rowFormatB line bounds = true) :
+    ∃ (P : Str) (cells : List Cell) (tail : Str),
+      line = P ++ (renderAll cells ++ tail) ∧ '.' ∉ P ∧ '.' ∉ tail ∧ (∀ c ∈ cells, c.WF) ∧ SepChain cells ∧ cells ≠ [] ∧
+      starts P.length cells = bounds :=
+  rowFormat_sound line bounds h
+
+example : rowFormatB "  AA 1     1 0.99013E+07 0.00000E+00-0.12409E+03\n".toList [12, 24, 36] = true := by decide
+
+/-! ### one row per printed row, keyed by the printed names, in the order of the printed index -/
+
+/-- `setup_table_TOUGH2` keeps the rows in a dictionary keyed by the printed index (`dictSet`) and orders the table
+    by `sorted(keys)` (`sortByIndex`): a row printed again under the same index (TOUGH2-MP prints a row once per
+    processor holding it) replaces the earlier one, every other index keeps its row, no index is held twice, and the
+    table lists exactly the rows kept, in ascending order of the printed index. -/
+theorem rows_keyed_by_printed_index (d : List Proofs.File.RowEntry) (i : Int) (v : Nat × Key) :
+    (dictSet d i v).lookup i = some v ∧
+    (∀ j, j ≠ i → (dictSet d i v).lookup j = d.lookup j) ∧
+    ((d.map (·.1)).Nodup → ((dictSet d i v).map (·.1)).Nodup) :=
+  ⟨Proofs.File.dictSet_lookup_self d i v, fun j hj => Proofs.File.dictSet_lookup_other d i j v hj,
+   Proofs.File.dictSet_keys_nodup d i v⟩
+
+theorem rows_in_index_order (d : List Proofs.File.RowEntry) :
+    (sortByIndex d).Perm d ∧ Proofs.File.Ascending (sortByIndex d) :=
+  ⟨Proofs.File.sortByIndex_perm d, Proofs.File.sortByIndex_ascending d⟩
+
+example : sortByIndex (dictSet (dictSet (dictSet [] 3 (0, [['c']])) 1 (1, [['a']])) 3 (2, [['c']])) = [(1, 1, [['a']]), (3, 2, [['c']])] := by decide
 
 /-! ### AUTOUGH2 rows: values are separated by blanks -/
 
